@@ -553,6 +553,13 @@ impl ShellEnvironment {
             var.export();
         }
 
+        let name = name.into();
+
+        // A readonly variable may be neither replaced nor shadowed in another scope.
+        if self.get(&name).is_some_and(|(_, v)| v.is_readonly()) {
+            return Err(error::ErrorKind::ReadonlyVariable.into());
+        }
+
         for (scope_type, map) in self.scopes.iter_mut().rev() {
             if *scope_type == target_scope {
                 let prev_var = map.set(name, var);
